@@ -2,6 +2,7 @@
 //! inputs and prints canonical `cmd \t arg \t result` lines.  One PRNG (splitmix64) seeded
 //! from the command line drives every choice, so runs replay exactly.
 mod cursor;
+mod dp;
 mod lang;
 mod rng;
 mod runtime;
@@ -34,6 +35,8 @@ fn main() {
         "c14" => lang::run_c14(&tier, seed, &mut out),
         "c20" => lang::run_c20(&tier, seed, &mut out),
         "limits" => lang::run_limits(&tier, seed, &mut out),
+        "dp" => dp::run_dp(&tier, seed, &mut out),
+        "c06" => dp::run_c06(&tier, seed, &mut out),
         // re-evaluate given cases (corpus / replay / shrinking): stdin lines `cmd \t arg [\t ...]`
         "eval" => {
             let stdin = std::io::stdin();
@@ -58,6 +61,7 @@ fn eval(cmd: &str, arg: &str) -> String {
         "cursor" => cursor::eval(param, arg),
         "loop" => runtime::eval(arg),
         "compile" => lang::eval(arg),
+        "dp" => "PENDING-CREF".to_string(),
         "frombuf" => wire::frombuf_str(&util::unhex(arg)),
         "rt" => wire::parse_m(arg).map(|m| wire::rt_str(&m)).unwrap_or_else(|| "UNPARSABLE".into()),
         "concat" => wire::concat_eval(arg),
